@@ -175,6 +175,27 @@ impl Method for PhoneticMethod {
             Suggestion::empty()
         }
     }
+
+    #[cfg(feature = "verif")]
+    fn verif_snapshot(&self, level: u8) -> String {
+        use std::collections::BTreeMap;
+        let mut map = serde_json::Map::new();
+        map.insert("method".into(), "phonetic".into());
+        map.insert("buffer".into(), self.buffer.clone().into());
+        map.insert("prev_selection".into(), self.prev_selection.into());
+        if level >= 1 {
+            let selections: BTreeMap<&String, &String> = self.selections.iter().collect();
+            map.insert("selections".into(), serde_json::to_value(selections).unwrap());
+            let modified = self
+                .modified
+                .duration_since(SystemTime::UNIX_EPOCH)
+                .map(|d| d.as_nanos() as u64)
+                .unwrap_or(0);
+            map.insert("modified_ns".into(), modified.into());
+            self.suggestion.verif_snapshot_into(&mut map, level);
+        }
+        serde_json::Value::Object(map).to_string()
+    }
 }
 
 // Implement Default trait on PhoneticMethod for testing convenience.
